@@ -18,11 +18,25 @@ def done (fetchN : Nat → OMap) (good : Entry → Bool) (amount len : Nat) : Bo
   refused good (fetchN len) == 0 || (fetchN len).length < len ||
     (fetchN len).length - refused good (fetchN len) ≥ amount
 
+/-- the length of the next fetch: as many more as were left out, and at least twice as many as before
+(finding F67: growing by what was left out alone read a run of refused entries in rounds of 3, 5, 7 …) -/
+def nextLen (amount len r : Nat) : Nat := if amount + r > 2 * len then amount + r else 2 * len
+
 /-- the loop: the length it ends with (fuel = an upper bound on the number of rounds) -/
 def loop (fetchN : Nat → OMap) (good : Entry → Bool) (amount : Nat) : Nat → Nat → Nat
   | 0, len => len
   | fuel+1, len =>
     if done fetchN good amount len then len
-    else loop fetchN good amount fuel (amount + refused good (fetchN len))
+    else loop fetchN good amount fuel (nextLen amount len (refused good (fetchN len)))
+
+/-- the loop as it is since the review of F57 (finding F63): what a round has found to belong to another
+log is excluded from the next fetch, so the fetcher of round `k` is not the fetcher of round `k+1` -
+`fs k` is the fetcher of round `k` (any dependence on what the earlier rounds found). The result is the
+round the loop ends in and the length it ends with. -/
+def loopR (fs : Nat → Nat → OMap) (good : Entry → Bool) (amount : Nat) : Nat → Nat → Nat → Nat × Nat
+  | 0, k, len => (k, len)
+  | fuel+1, k, len =>
+    if done (fs k) good amount len then (k, len)
+    else loopR fs good amount fuel (k + 1) (nextLen amount len (refused good (fs k len)))
 
 end Orbit.Refetch
